@@ -3,6 +3,8 @@
 * `tree(obj)`        canonical plain-data image of a dataclass tree (dataclasses.fields only; private
                      attributes = resolved-reference caches are ignored; lists keep their order)
 * `diff(a, b)`       list of (path, owner class, field, left, right) where two images differ
+* `effective_tree(db)` image of the *derived* state refresh() computes (per layer: public properties, query results; per
+                     object: resolved references and computed scalars), enumerated from the live classes
 * `write_db / load_* ` the writer and the loader entry points, exceptions turned into data
 * `slots(db)`        every (object, field) of the dataclass tree below a database (perturbation sites)
 * `perturb(...)`     one single-field perturbation
@@ -109,10 +111,13 @@ class TreeOpts:
             instead of (ref_id, ref_docs): a reference written with an explicit DOCREF and one that relies on the
             enclosing document denote the same object (default materialisation, not a loss)
     mask  : True -> `doc_fragments` / `ref_docs` lists are not rendered at all (single-field perturbations: the
-            fragments of every id below a renamed layer change as a consequence of the one perturbed SHORT-NAME)"""
+            fragments of every id below a renamed layer change as a consequence of the one perturbed SHORT-NAME)
+    by_id : True -> an object that carries an ODXLINK id is rendered as a reference (class, short name, id) and not
+            expanded (images of the *effective* state of a layer: which objects a layer ends up with; what these
+            objects contain is already in the image of the container lists)"""
 
-    def __init__(self, links=None, mask=False):
-        self.links, self.mask = links, mask
+    def __init__(self, links=None, mask=False, by_id=False):
+        self.links, self.mask, self.by_id = links, mask, by_id
 
 
 def _resolve(links, ref):
@@ -140,6 +145,11 @@ def tree(obj, _stack=None, opts=None):
     if is_dc(obj):
         if id(obj) in _stack:
             return ("cycle", type(obj).__name__)
+        if opts is not None and opts.by_id:
+            oid = getattr(obj, "odx_id", None)
+            if oid is not None and hasattr(oid, "local_id"):
+                return ("ref", type(obj).__name__, getattr(obj, "short_name", None), oid.local_id,
+                        [getattr(d, "doc_name", None) for d in getattr(oid, "doc_fragments", [])])
         _stack.add(id(obj))
         fields = []
         for f in public_fields(obj):
@@ -168,6 +178,12 @@ def tree(obj, _stack=None, opts=None):
         return ("list", [tree(x, _stack, opts) for x in obj])
     if type(obj).__name__ == "Version":
         return ("version", str(obj))
+    if opts is not None and opts.by_id:
+        try:    # helper objects of the layer API (ServiceBinner ...): what they print, addresses removed
+            import re
+            return ("text", type(obj).__name__, re.sub(r" at 0x[0-9a-fA-F]+", "", str(obj))[:4000])
+        except Exception as e:
+            return ("text", type(obj).__name__, "raises:" + type(e).__name__)
     return ("opaque", type(obj).__name__, repr(obj)[:200])
 
 
@@ -219,6 +235,132 @@ def db_tree(db, resolve=False, mask=False):
         ("comparam_subsets", tree(list(db.comparam_subsets), None, opts)),
         ("comparam_specs", tree(list(db.comparam_specs), None, opts)),
     ])
+
+
+# ------------------------------------------------------------------------------------------------
+# the *effective* state of a loaded database: what Database.refresh() / _finalize_init() derive from the described
+# attributes (objects a layer ends up with after inheritance, overriding and NOT-INHERITED-*, the communication parameters
+# that apply to it, its protocols) and what the query API of a layer answers.  Nothing is listed by hand: every public
+# property of the layer's class and every query method that can be called with at most a protocol is evaluated.
+def _public_properties(cls):
+    import functools
+    names = []
+    for k in cls.__mro__:
+        for n, v in vars(k).items():
+            if not n.startswith("_") and isinstance(v, (property, functools.cached_property)) and n not in names:
+                names.append(n)
+    return sorted(names)
+
+
+def _protocol_queries(cls):
+    """public methods whose only parameter (besides self) is an optional `protocol`"""
+    import inspect
+    out = []
+    for n in sorted(dir(cls)):
+        if n.startswith("_"):
+            continue
+        f = getattr(cls, n, None)
+        if not inspect.isfunction(f):
+            continue
+        try:
+            ps = list(inspect.signature(f).parameters.values())[1:]
+        except (TypeError, ValueError):
+            continue
+        if [p.name for p in ps] == ["protocol"] and ps[0].default is not inspect.Parameter.empty:
+            out.append(n)
+    return out
+
+
+def _guard(fn, opts):
+    import warnings
+    try:
+        with warnings.catch_warnings():
+            warnings.simplefilter("ignore")
+            return tree(fn(), None, opts)
+    except Exception as e:
+        return ("raises", type(e).__name__)
+
+
+def layer_effective(dl, links=None):
+    """[(name, image)] for one diagnostic layer"""
+    opts = TreeOpts(links=links, by_id=True)
+    cls = type(dl)
+    out = []
+    for n in _public_properties(cls):
+        if n.endswith("_raw"):
+            continue        # the described attributes themselves: in the image of the container lists
+        out.append((n, _guard(lambda: getattr(dl, n), opts)))
+    queries = _protocol_queries(cls)
+    if queries or hasattr(dl, "get_comparam"):
+        try:
+            prots = [None] + [p.short_name for p in dl.protocols]
+        except Exception:
+            prots = [None]
+        try:
+            cp_names = sorted({cp.short_name for cp in dl.comparam_refs})
+        except Exception:
+            cp_names = []
+        for pr in prots:
+            for q in queries:
+                out.append((f"{q}({pr})", _guard(lambda: getattr(dl, q)(protocol=pr), opts)))
+            if hasattr(dl, "get_comparam"):
+                for c in cp_names:
+                    out.append((f"get_comparam({c},{pr})", _guard(lambda: dl.get_comparam(c, protocol=pr), opts)))
+    return out
+
+
+def resolved_image(db):
+    """[(path:Class.property, image)]: for every dataclass object below the database (containers in the order of their short
+    names) every public property that answers with a scalar, an object carrying an ODXLINK id or a list -- the references
+    refresh() resolved (request / responses of a service, DOP of a parameter, table of a key, layer of a PARENT-REF,
+    subsets of a PROT-STACK ...) and what the objects compute from them (is_required, bit lengths ...)"""
+    import warnings
+    opts = TreeOpts(links=getattr(db, "_odxlinks", None), by_id=True)
+    out, props, seen = [], {}, set()
+    roots = [("dlc", db.diag_layer_containers), ("cs", db.comparam_subsets), ("cspec", db.comparam_specs)]
+    for rname, lst in roots:
+        for top in sorted(lst, key=lambda c: c.short_name):
+            for path, obj in walk(top, f"{rname}[{top.short_name}]", seen):
+                cls = type(obj)
+                if cls not in props:
+                    props[cls] = _public_properties(cls)
+                for n in props[cls]:
+                    key = f"{path}:{cls.__name__}.{n}"
+                    try:
+                        with warnings.catch_warnings():
+                            warnings.simplefilter("ignore")
+                            v = getattr(obj, n)
+                    except Exception as e:
+                        out.append((key, ("raises", type(e).__name__)))
+                        continue
+                    if (v is None or isinstance(v, (bool, int, str, float, bytes, bytearray, enum.Enum)) or hasattr(v, "odx_id")
+                            or isinstance(v, (list, tuple)) or type(v).__name__ == "NamedItemList"):
+                        out.append((key, tree(v, None, opts)))
+    return out
+
+
+def effective_tree(db):
+    """image of the derived state of a loaded database: per layer (sorted by container and short name) its effective
+    properties and query results, and the layer lists of the database (sorted by short name: they follow the container order)"""
+    links = getattr(db, "_odxlinks", None)
+    opts = TreeOpts(links=links, by_id=True)
+    layers = []
+    for dlc in sorted(db.diag_layer_containers, key=lambda c: c.short_name):
+        for dl in dlc.diag_layers:
+            layers.append((dlc.short_name + "/" + dl.short_name, ("dc", type(dl).__name__, layer_effective(dl, links))))
+    lists = []
+    for n in _public_properties(type(db)):
+        if n in ("odxlinks", "short_name", "diag_layer_containers", "comparam_subsets", "comparam_specs"):
+            continue
+        v = _guard(lambda: getattr(db, n), opts)
+        if isinstance(v, tuple) and v and v[0] == "list":
+            v = ("list", sorted(v[1], key=repr))
+        lists.append((n, v))
+    try:
+        resolved = ("dc", "Resolved", resolved_image(db))
+    except Exception as e:
+        resolved = ("raises", type(e).__name__)
+    return ("dc", "EffectiveDatabase", [("layers", ("dc", "Layers", layers)), ("lists", ("dc", "Database", lists)), ("resolved", resolved)])
 
 
 def sort_containers(img):
